@@ -142,8 +142,11 @@ class El:
 
 
 class Spelling:
-    def __init__(self, ds="<", de=">", tl="tl", rm="rm", other="zz"):
+    def __init__(self, ds="<", de=">", tl="tl", rm="rm", other="zz", multiline=False):
         self.ds, self.de, self.tl, self.rm, self.other = ds, de, tl, rm, other
+        # multiline: tags that span lines (attributes separated by a line break, a line break in front of the end
+        # delimiter); only used for correspondence-only inputs - the line-based reference oracles assume one-line tags
+        self.multiline = multiline
 
     def tagname(self, kind):
         return {"tl": self.tl, "rm": self.rm}.get(kind, self.other)
@@ -173,9 +176,19 @@ class Spelling:
             parts.insert(min(e.skip_pos, len(parts)), "skip")
         if e.extra:
             parts.append(e.extra)
+        if self.multiline:
+            k = zlib.crc32(b"ml%d" % e.id) % 4
+            if k == 0:
+                sep = "\n" + (e.indent or "") + "  "
+            elif k == 1:
+                return self.ds + sep.join(parts) + "\n" + (e.indent or "") + self.de
+            elif k == 2:
+                return self.ds + parts[0] + "\n" + " ".join(parts[1:]) + self.de
         return self.ds + sep.join(parts) + self.de
 
     def close_tag(self, e):
+        if self.multiline and zlib.crc32(b"mc%d" % e.id) % 3 == 0:
+            return self.ds + "/" + self.tagname(e.kind) + "\n" + (e.indent or "") + self.de
         return self.ds + "/" + self.tagname(e.kind) + self.de
 
 
